@@ -6,6 +6,7 @@
                                   -> tok <index of the first config since reset with the same state token>
     index <l.l.l> <pos:f,...> <live|dead>
                                   -> e=.. s=.. st=.. er=.. b=.. sc=.. sr=.. n=.. t=..
+    delete <l.l.l;l.l;...>        -> del=<deleted manifests> mf=<manifest rows> sl=<scanned_layer rows> ar=<artifact rows>
 -/
 import Driver.Util
 import ClairModel.Model.Indexer
@@ -147,6 +148,14 @@ def stepLine (s : State) (l : String) : State × String :=
       let r := index sem (oracleOf script) s.wd.cfg m s.wd.st (d == "dead")
       ({ s with wd := { s.wd with st := r.st, scans := r.e.scans ++ s.wd.scans } }, renderIndex s.wd.cfg m r)
     | _, _ => (s, "bad-op")
+  | ["delete", spec] =>
+    match (spec.splitOn ";").mapM parseLayers with
+    | none => (s, "bad-op")
+    | some ms =>
+      let (wd, out) := step sem s.wd (.delete ms)
+      let del := if out.deleted.isEmpty then "-" else ";".intercalate (out.deleted.map fun m => bodyStr m)
+      ({ s with wd := wd },
+       s!"del={del} mf={wd.st.manifests.length} sl={wd.st.scannedLayer.eraseDups.length} ar={wd.st.rows.eraseDups.length}")
   | _ => (s, "bad-op")
 
 def main : IO Unit := do
